@@ -42,7 +42,8 @@ def converted_classes(ctx) -> Dict[str, str]:
     disp = {id(f) for f, _ in ctx.facts.dispatchers()}
     errors_mod = t.mod("errors")
     classes = [ci for ci in errors_mod.classes.values() if "JSError" in t.exc_ancestors(errors_mod, ci.name)]
-    for f, loop in ctx.facts.dispatch_loops():
+    scopes = [(f, loop) for f, loop in ctx.facts.dispatch_loops()] + [(w, w.node) for w in ctx.facts.dispatch_wrappers()]
+    for f, loop in scopes:
         for n in ast.walk(loop):
             if isinstance(n, ast.Try):
                 calls_disp = any(isinstance(c, ast.Call) and (ctx.cg.site_of_call.get(id(c)) and any(id(t_) in disp for t_ in ctx.cg.site_of_call[id(c)].targets)) for s in n.body for c in ast.walk(s))
@@ -280,6 +281,155 @@ def _discharges(ctx) -> Dict[str, Tuple[bool, str]]:
     return out
 
 
+def _signal_discharge(ctx, cls: str, raise_fq: str, raise_line: int) -> Tuple[bool, str]:
+    """An internal unwinding signal (a repo exception class that is not a JSError) is contained when
+      (a) its raise is guarded by the truthiness of a per-interpreter list D,
+      (b) D is pushed and popped only by functions B, each pairing the push with a pop in `finally`,
+      (c) every call path from the public API to a function of B goes through a call that sits in a try body
+          whose handlers catch the signal -- except calls on an interpreter constructed in the calling function
+          (its call stack and handler stack are empty, so no handler can lie below the boundary).
+    Then whenever the signal is raised a catching try body is active below the innermost B activation."""
+    from ..util import atoms
+
+    t = ctx.tree
+    cg = ctx.cg
+    f = next((g for g in t.funcs if g.qual == raise_fq), None)
+    if f is None:
+        return False, "raise site not found"
+    rn = next((n for n in f.own_nodes() if isinstance(n, ast.Raise) and n.lineno == raise_line), None)
+    if rn is None:
+        return False, "raise site not found"
+    cands = []
+    for tst, pol in guards_of(rn, f.node):
+        for a, p_ in atoms(tst, pol):
+            if p_ and isinstance(a, ast.Attribute) and norm(a.value) == "self":
+                cands.append(a.attr)
+    if not cands:
+        return False, "the raise is not guarded by a per-interpreter marker list"
+    why = ""
+    for D in cands:
+        okd, why = _signal_discharge_for(ctx, cls, f, D)
+        if okd:
+            return okd, why
+    return False, why
+
+
+def _signal_discharge_for(ctx, cls: str, f: Func, D: str) -> Tuple[bool, str]:
+    t = ctx.tree
+    cg = ctx.cg
+    B = []
+    for g in t.funcs:
+        muts = [n for n in g.own_nodes() if isinstance(n, ast.Call) and isinstance(n.func, ast.Attribute) and norm(n.func.value) == f"self.{D}" and n.func.attr in ("append", "pop", "clear", "insert", "extend", "remove")]
+        rebind = [n for n in g.own_nodes() if isinstance(n, ast.Assign) and any(norm(x) == f"self.{D}" for x in n.targets) and g.name != "__init__"]
+        if rebind:
+            return False, f"{g.qual} re-binds self.{D}"
+        if not muts:
+            continue
+        pushes = [m for m in muts if m.func.attr == "append"]
+        others = [m for m in muts if m.func.attr not in ("append", "pop")]
+        if others or len(pushes) != 1:
+            return False, f"{g.qual} mutates self.{D} outside the push/pop protocol"
+        # the push statement must be directly followed by a try whose finally pops
+        st = pushes[0]
+        while not isinstance(getattr(st, "_parent", None), (ast.FunctionDef, ast.If, ast.For, ast.While, ast.With, ast.Try)) and getattr(st, "_parent", None) is not None:
+            st = st._parent
+        par = getattr(st, "_parent", None)
+        paired = False
+        for field in ("body", "orelse", "finalbody"):
+            blk = getattr(par, field, None)
+            if isinstance(blk, list) and st in blk:
+                i = blk.index(st)
+                if i + 1 < len(blk) and isinstance(blk[i + 1], ast.Try) and any(f"self.{D}.pop()" in norm(x) for x in blk[i + 1].finalbody):
+                    paired = True
+        if not paired:
+            return False, f"{g.qual} pushes self.{D} without a try/finally that pops it"
+        B.append(g)
+    if not B:
+        return False, f"nothing pushes self.{D}"
+    sigmod = next((m for m in t.modules.values() if cls in m.classes), None) if isinstance(t.modules, dict) else None
+    if sigmod is None:
+        sigmod = f.module
+    prot = set()
+    fresh_ok = set()
+    for g in t.funcs:
+        for cs in cg.sites_of.get(id(g), []):
+            ch, p_ = cs.call, getattr(cs.call, "_parent", None)
+            while p_ is not None and p_ is not g.node:
+                if isinstance(p_, ast.Try) and any(ch is x for x in p_.body) and any(h.type is not None and cls in [norm(x).split(".")[-1] for x in (h.type.elts if isinstance(h.type, ast.Tuple) else [h.type])] for h in p_.handlers):
+                    for tg in cs.targets:
+                        prot.add((id(g), id(tg)))
+                ch, p_ = p_, getattr(p_, "_parent", None)
+            # call on an interpreter constructed in this function
+            fn = cs.call.func
+            if isinstance(fn, ast.Attribute) and isinstance(fn.value, ast.Name) and any(tg in B for tg in cs.targets):
+                rcv = fn.value.id
+                ctor = [n for n in g.own_nodes() if isinstance(n, ast.Assign) and any(isinstance(x, ast.Name) and x.id == rcv for x in n.targets) and isinstance(n.value, ast.Call) and cg._class_visible(call_name(n.value) or "", g) is f.cls]
+                if ctor:
+                    for tg in cs.targets:
+                        fresh_ok.add((id(g), id(tg)))
+    api = t.class_named("Context")
+    roots = list(api.all_methods)
+    par: Dict[int, Optional[int]] = {id(r): None for r in roots}
+    byid = {id(g): g for g in t.funcs}
+    work = list(roots)
+    native_ids = set(cg.natives.keys())
+    # slots that hold a callable given to a constructor: self.<slot> = <parameter> in exactly one class's __init__
+    slot_owners: Dict[str, Set[str]] = {}
+    for ci in [c for lst in t.classes.values() for c in lst]:
+        init = ci.methods.get("__init__")
+        if init is None:
+            continue
+        ps = set(init.params())
+        for n in init.own_nodes():
+            if isinstance(n, ast.Assign) and len(n.targets) == 1 and isinstance(n.targets[0], ast.Attribute) and norm(n.targets[0].value) == "self" and isinstance(n.value, ast.Name) and n.value.id in ps and n.targets[0].attr.startswith("_") and "fn" in n.targets[0].attr:
+                slot_owners.setdefault(n.targets[0].attr, set()).add(ci.name)
+    # a slot also written anywhere else is not closed
+    for g in t.funcs:
+        for n in g.own_nodes():
+            if isinstance(n, ast.Assign):
+                for tg in n.targets:
+                    if isinstance(tg, ast.Attribute) and tg.attr in slot_owners and not (g.name == "__init__" and g.cls is not None and g.cls.name in slot_owners[tg.attr]):
+                        slot_owners[tg.attr] = set()
+
+    def succ(g):
+        # call edges, natives through dynamic call sites, and closures passed as values -- but a closure that is
+        # registered as a native is only ever invoked by the interpreter (a dynamic call site), not by its definer
+        out = []
+        for cs in cg.sites_of.get(id(g), []):
+            out.extend(cs.targets)
+            if cs.kind == "dynamic":
+                fn = cs.call.func
+                slot = fn.attr if isinstance(fn, ast.Attribute) else None
+                owners = slot_owners.get(slot) if slot else None
+                if owners:
+                    # obj.<slot>(...): only functions stored in that slot by the owning class's constructor
+                    out.extend(v[0] for v in cg.natives.values() if v[2] in owners)
+                else:
+                    out.extend(v[0] for v in cg.natives.values())
+        called = {id(x) for x in out}
+        for h in cg.callees(g):
+            if id(h) not in called and id(h) not in native_ids:
+                out.append(h)
+        return out
+
+    while work:
+        g = work.pop()
+        for h in succ(g):
+            if (id(g), id(h)) in prot or (id(g), id(h)) in fresh_ok:
+                continue
+            if id(h) not in par:
+                par[id(h)] = id(g)
+                work.append(h)
+    for b in B:
+        if id(b) in par:
+            path, p_ = [], id(b)
+            while p_ is not None:
+                path.append(byid[p_].qual)
+                p_ = par[p_]
+            return False, "unprotected path to " + " <- ".join(path[:6])
+    return True, f"raised only while self.{D} is non-empty; pushed/popped (try/finally) only by {[b.qual for b in B]}; every API path to them passes through a try body that catches {cls} ({len(prot)} protected call edges) or starts on a freshly constructed interpreter ({len(fresh_ok)} entries)"
+
+
 def rule_explicit_raises(ctx, rep, rid: str, floor: int = 40) -> None:
     rep.rule(rid, "every exception class raised on purpose anywhere under Context.eval is in the JSError family, is converted before leaving eval, or is proved unreachable by a table-agreement rule", floor=floor)
     from .. import xflow
@@ -310,6 +460,13 @@ def rule_explicit_raises(ctx, rep, rid: str, floor: int = 40) -> None:
         d = [(k, v) for k, v in dis.items() if k in txt]
         if d and d[0][1][0]:
             rep.ok(rid, key, {"unreachable_because": d[0][1][1]})
+            continue
+        if t.resolve_class_name(mod, cls) is not None and cls.startswith("_"):
+            okd, why = _signal_discharge(ctx, cls, fq, line)
+            if okd:
+                rep.ok(rid, key, {"contained_because": why})
+                continue
+            rep.bad(rid, key, f"{fq} raises the internal signal {cls}, which is not contained: {why}", f"{mod.rel}:{line}")
             continue
         rep.bad(rid, key, f"{fq} raises {cls}, which is not a JSError and can propagate out of Context.eval unconverted", f"{mod.rel}:{line}")
     rep.analysed["raise_sites"] = len(all_origins)
@@ -398,3 +555,76 @@ def rule_handler_stack_mutations(ctx, rep, rid: str) -> None:
                 rep.bad(rid, key, f"{m.qual} ({where}) {kind}s the handler stack outside the protocol: a record that belongs to a live try block (possibly of another frame) can be removed or duplicated, so a later throw skips its catch/finally or lands in the wrong one", loc)
     if roles != {"push", "pop-end", "pop-throw"}:
         raise AnalysisError(f"handler-stack protocol anchors not all found (saw {sorted(roles)})")
+
+
+# ------------------------------------------------------------------ C07-R3c
+def unwinding_signals(ctx) -> List[Tuple[str, Func, ast.Raise]]:
+    """Repo exception classes that are not JSErrors and are raised by the VM class itself to unwind natives."""
+    t = ctx.tree
+    df, _ = ctx.facts.vm_dispatcher()
+    out = []
+    for m in df.cls.all_methods:
+        for n in m.own_nodes():
+            if isinstance(n, ast.Raise) and isinstance(n.exc, ast.Call) and isinstance(n.exc.func, ast.Name):
+                ci = t.resolve_class_name(m.module, n.exc.func.id)
+                if ci is not None and ci.module is m.module and "JSError" not in t.exc_ancestors(m.module, ci.name):
+                    out.append((ci.name, m, n))
+    return out
+
+
+def rule_signal_not_swallowed(ctx, rep, rid: str) -> None:
+    rep.rule(rid, "the signal that carries a script exception through a native function is caught only by the run loop's conversion wrapper: any broader handler (except Exception / bare except) around a call that can run a callback re-raises it unchanged, or runs a separately constructed interpreter", floor=1)
+    t = ctx.tree
+    cg = ctx.cg
+    sigs = unwinding_signals(ctx)
+    if not sigs:
+        rep.ok(rid, "no-unwinding-signal", {"note": "the interpreter defines no internal unwinding signal"})
+        return
+    wr = {id(w) for w in ctx.facts.dispatch_wrappers()} | {id(f) for f, _ in ctx.facts.dispatch_loops()}
+    df, _ = ctx.facts.vm_dispatcher()
+    for cls, raiser, rn in sigs:
+        okd, why = _signal_discharge(ctx, cls, raiser.qual, rn.lineno)
+        key = f"{raiser.qual}:raise {cls}:contained"
+        if okd:
+            rep.ok(rid, key, {"because": why})
+        else:
+            rep.bad(rid, key, f"{raiser.qual} raises the unwinding signal {cls}, which can reach the embedder: {why}", f"{raiser.module.rel}:{rn.lineno}")
+        # who pushes the marker? (functions whose activation the signal unwinds)
+        B = [g for g in t.funcs if any(isinstance(n, ast.Call) and isinstance(n.func, ast.Attribute) and n.func.attr == "append" and norm(n.func.value).startswith("self._") and norm(n.func.value)[5:] in {a for tst, pol in guards_of(rn, raiser.node) for a in [x.attr for x in ast.walk(tst) if isinstance(x, ast.Attribute) and norm(x.value) == "self"]} for n in g.own_nodes()) and g.cls is df.cls and g is not df]
+        bid = {id(b) for b in B}
+        for f in t.funcs:
+            if id(f) in wr:
+                continue
+            for n in f.own_nodes():
+                if not isinstance(n, ast.Try):
+                    continue
+                hs = [h for h in n.handlers if t.handler_catches(f.module, h, cls, raiser.module)]
+                if not hs:
+                    continue
+                reaching = []
+                for s_ in n.body:
+                    for c in ast.walk(s_):
+                        if isinstance(c, ast.Call):
+                            cs = cg.site_of_call.get(id(c))
+                            if cs and (cs.kind == "dynamic" or any(id(tg) in bid or cg.reaches(tg, bid) for tg in cs.targets)):
+                                reaching.append(c)
+                if not reaching:
+                    continue
+                key = f"{f.qual}:except {norm(hs[0].type) if hs[0].type else 'bare'}:around-callback"
+                h = hs[0]
+                reraises = bool(h.body) and isinstance(h.body[-1], ast.Raise) and h.body[-1].exc is None and not any(isinstance(x, (ast.Return, ast.Continue, ast.Break)) for st in h.body for x in ast.walk(st))
+                fresh = True
+                for c in reaching:
+                    fn = c.func
+                    rcv = fn.value.id if isinstance(fn, ast.Attribute) and isinstance(fn.value, ast.Name) else None
+                    ctor = rcv is not None and any(isinstance(a, ast.Assign) and any(isinstance(x, ast.Name) and x.id == rcv for x in a.targets) and isinstance(a.value, ast.Call) and cg._class_visible(call_name(a.value) or "", f) is df.cls for a in f.own_nodes())
+                    # pure helper calls (parser/compiler constructors) cannot run callbacks of this interpreter
+                    cs = cg.site_of_call.get(id(c))
+                    if not ctor and cs is not None and (cs.kind == "dynamic" or any(id(tg) in bid or cg.reaches(tg, bid) for tg in cs.targets)):
+                        fresh = False
+                if reraises:
+                    rep.ok(rid, key, {"handler": "re-raises unchanged"})
+                elif fresh:
+                    rep.ok(rid, key, {"handler": "body runs a separately constructed interpreter"})
+                else:
+                    rep.bad(rid, key, f"{f.qual} wraps a call that can run a script callback ({short(reaching[0], 50)}) in `except {norm(h.type) if h.type else ''}`, which also catches the unwinding signal {cls}: a script exception travelling to an outer catch is turned into something else here", f"{f.module.rel}:{h.lineno}")
